@@ -368,6 +368,10 @@ func (m *mon) c06() {
 	if !m.props["C06"] {
 		return
 	}
+	m.c06rest()
+	if m.e.family == "apimix" || m.e.family == "ctlrace" {
+		return // overlapping control calls: only the at-rest condition above is judged
+	}
 	for _, c := range m.e.calls {
 		switch c.name {
 		case "WaitUntilFinished":
@@ -417,6 +421,33 @@ func (m *mon) c06() {
 			if r := m.wfRunningAt(c.tRet); len(r) > 0 {
 				m.add("C06", "pause-not-exact", "%s returned at t=%d while worker functions of %v were executing", c.name, c.tRet, r)
 			}
+		}
+	}
+}
+
+// c06rest: a thread asleep in WaitUntilFinished (directly or inside PauseAndWait / Stop / Restart)
+// when nothing can move any more, although the condition the code itself waits for is false:
+// status paused or stopped and curProcessing = 0. (With status running the condition involves the
+// queue lengths: a sleeper then is the lost dispatch of C03.)
+func (m *mon) c06rest() {
+	if m.s.Livelock {
+		return
+	}
+	cur, haveCur := 0, false
+	for _, ev := range m.s.Log {
+		if (ev.Kind == "add" || ev.Kind == "store") && strings.Contains(siteExpr(ev.Site), "curProcessing") {
+			cur, _ = strconv.Atoi(ev.Val)
+			haveCur = true
+		}
+	}
+	st := m.finalWorkerStatus()
+	if (st != 2 && st != 3) || (haveCur && cur != 0) {
+		return
+	}
+	for _, p := range m.s.Parked() {
+		if strings.HasPrefix(siteName(p.Site), "worker.WaitUntilFinished/") {
+			m.add("C06", "asleep-at-rest", "g%d sleeps in WaitUntilFinished at rest although the worker is %s with curProcessing = 0", p.ID,
+				map[int]string{2: "paused", 3: "stopped"}[st])
 		}
 	}
 }
